@@ -573,11 +573,12 @@ Section Correct.
 
   (* an expression followed by anything that does not continue it: the Pratt loop returns the
      oracle's tree and stops exactly there *)
-  Lemma expr_prefix_correct : forall a tail,
+  Lemma expr_prefix_correct : forall a tail f,
     unit_ok (fst a) -> tail_ok (snd a) -> stops 0 tail ->
-    expr (fuel_for tok (alt_tokens tok a)) 0 (alt_tokens tok a ++ tail) = ROk (split_alt a, tail).
+    (f >= fuel_for tok (alt_tokens tok a))%nat ->
+    expr f 0 (alt_tokens tok a ++ tail) = ROk (split_alt a, tail).
   Proof.
-    intros [u l] tail Hu Hl Hst. cbn [fst snd] in *.
+    intros [u l] tail f Hu Hl Hst Hf. cbn [fst snd] in *.
     destruct u as [ps x qs]. destruct Hu as (Hps & Hx & Hqs). cbn [u_pre u_atom u_post] in *.
     assert (HQ := Q (length l) l (le_n _) (mkUnit ps x qs) [] 0 maxl tail).
     assert (Hloop : Loop 0 (unit_tree' ps x qs) (tail_tokens l ++ tail) (split_alt (mkUnit ps x qs, l), tail)
@@ -599,7 +600,8 @@ Section Correct.
       by (rewrite <- app_assoc; reflexivity).
     replace ((ps ++ x :: qs ++ tail_tokens l) ++ tail) with (ps ++ x :: qs ++ tail_tokens l ++ tail)
       by (rewrite <- !app_assoc; cbn [app]; rewrite <- !app_assoc; reflexivity).
-    apply HE. unfold fuel_for. rewrite !app_length. cbn [length]. rewrite !app_length. lia.
+    apply HE. unfold fuel_for, alt_tokens, PrattSpec.unit_tokens in Hf. cbn [fst snd u_pre u_atom u_post] in Hf.
+    rewrite !app_length in Hf. cbn [length] in Hf. lia.
   Qed.
 
   Theorem pratt_is_the_oracle : forall ts a,
@@ -613,5 +615,162 @@ Section Correct.
     rewrite app_nil_r in E3. subst ts.
     rewrite <- (app_nil_r (alt_tokens tok a)) at 2.
     apply expr_prefix_correct; auto. exact I.
+  Qed.
+
+  (* ---- whole blocks: statements in order ---- *)
+  Variables (is_semi : tok -> bool) (is_label_for : list tok -> bool).
+  Hypothesis H_start : forall t,
+    is_semi t || is_operand t || is_prefix t = true -> is_postfix t = false ->
+    exists l, lbp t = Some l /\ l <= 0.
+  Hypothesis H_semi : forall t, is_semi t = true -> is_operand t = false /\ is_prefix t = false.
+  Hypothesis H_label : forall ts, is_label_for ts = true -> take_unit ts = None.
+
+  Notation stmts := (stmts tok lbp nud led is_else led_err eof_tok is_semi is_label_for).
+  Notation spec_stmts := (spec_stmts tok is_operand is_prefix is_binop is_postfix is_semi prec rassoc).
+  Notation drop_semis := (drop_semis tok is_semi).
+
+  Definition nohead (p : tok -> bool) (ts : list tok) : Prop :=
+    match ts with t :: _ => p t = false | [] => True end.
+
+  Lemma take_while_head : forall p ts, nohead p (snd (take_while p ts)).
+  Proof.
+    induction ts as [|t r IH]; cbn [PrattSpec.take_while]; [exact I|].
+    destruct (p t) eqn:E; cbn [snd]; auto; try (cbn; exact E).
+  Qed.
+
+  Lemma take_unit_head : forall ts u r, take_unit ts = Some (u, r) -> nohead is_postfix r.
+  Proof.
+    unfold PrattSpec.take_unit; intros.
+    destruct (snd (take_while is_prefix ts)) as [|a r2]; [discriminate|].
+    destruct (is_operand a); [|discriminate]. inversion H; subst. apply take_while_head.
+  Qed.
+
+  Lemma take_tail_head : forall f ts l r,
+    take_tail f ts = Some (l, r) -> nohead is_postfix ts -> nohead is_postfix r /\ nohead is_binop r.
+  Proof.
+    induction f as [|f IH]; intros; cbn [PrattSpec.take_tail] in H; [discriminate|].
+    destruct ts as [|o ts'].
+    - inversion H; subst. split; exact I.
+    - destruct (is_binop o) eqn:Eo.
+      + destruct (take_unit ts') as [[u r']|] eqn:Eu; [|discriminate].
+        destruct (take_tail f r') as [[l' r'']|] eqn:Et; [|discriminate].
+        inversion H; subst. eapply IH; eauto. eapply take_unit_head; eauto.
+      + inversion H; subst. split; auto; exact Eo.
+  Qed.
+
+  Lemma take_expr_head : forall ts a r,
+    take_expr ts = Some (a, r) -> nohead is_postfix r /\ nohead is_binop r.
+  Proof.
+    unfold PrattSpec.take_expr; intros.
+    destruct (take_unit ts) as [[u r1]|] eqn:Eu; [|discriminate].
+    destruct (take_tail (S (length r1)) r1) as [[l r2]|] eqn:Et; [|discriminate].
+    inversion H; subst. eapply take_tail_head; eauto. eapply take_unit_head; eauto.
+  Qed.
+
+  Lemma posts_not_leaf : forall qs (x : tree tok),
+    (forall t, x <> Leaf t) -> forall t, fold_left (fun x q => Post q x) qs x <> Leaf t.
+  Proof.
+    induction qs as [|q qs IH]; intros; cbn [fold_left]; auto.
+    apply IH. intros t' E; discriminate.
+  Qed.
+
+  Lemma unit_tree_leaf : forall u t, unit_tree u = Leaf t -> t = u_atom u.
+  Proof.
+    intros [ps a qs] t. unfold PrattSpec.unit_tree. cbn [u_pre u_atom u_post].
+    destruct ps as [|p ps]; cbn [fold_right]; [|discriminate].
+    destruct qs as [|q qs]; cbn [fold_left].
+    - intros E; inversion E; reflexivity.
+    - intros E. exfalso. eapply posts_not_leaf; [|exact E]. intros t' E'; discriminate.
+  Qed.
+
+  Lemma split_shape : forall f u rest,
+    (exists o l r, split f u rest = Bin o l r) \/ split f u rest = unit_tree u.
+  Proof.
+    intros. destruct f; cbn [PrattSpec.split]; auto.
+    destruct rest as [|p rest]; auto.
+    destruct (skipn _ (p :: rest)) as [|[o u'] after]; auto.
+    left. eauto.
+  Qed.
+
+  Lemma split_alt_leaf : forall a t, unit_ok (fst a) -> split_alt a = Leaf t -> is_operand t = true.
+  Proof.
+    intros [u l] t Hu E. unfold PrattSpec.split_alt in E. cbn [fst snd] in *.
+    destruct (split_shape (length l) u l) as [(o & x & y & Hs)|Hs]; rewrite Hs in E; [discriminate|].
+    apply unit_tree_leaf in E. subst. apply Hu.
+  Qed.
+
+  Lemma stmts_S : forall f ts,
+    stmts (S f) ts =
+      match drop_semis ts with
+      | [] => ROk []
+      | t1 :: r1 =>
+        if is_label_for (t1 :: r1) then RUnsup else
+        bind (expr (fuel_for tok (t1 :: r1)) 0 (t1 :: r1)) (fun p =>
+          let x := fst p in
+          let keep := match x with Leaf t => negb (is_semi t) | _ => true end in
+          let rest := match snd p with
+                      | t :: rest' => if is_semi t then rest' else snd p
+                      | [] => []
+                      end in
+          bind (stmts f rest) (fun xs => ROk (if keep then x :: xs else xs)))
+      end.
+  Proof. reflexivity. Qed.
+
+  Lemma stmts_semi : forall f t r, is_semi t = true -> stmts (S f) (t :: r) = stmts (S f) r.
+  Proof. intros. rewrite !stmts_S. cbn [Pratt.drop_semis]. now rewrite H. Qed.
+
+  (* every block the documented grammar recognises (statements separated by semicolons or merely
+     juxtaposed, stray semicolons allowed) is expanded by InfixExpandArray to exactly the
+     specification's statement list, in order *)
+  Theorem block_is_the_oracle : forall fs ts xs,
+    spec_stmts fs ts = Some xs ->
+    forall fm, (fm > length ts)%nat -> stmts fm ts = ROk xs.
+  Proof.
+    induction fs as [|fs IH]; intros ts xs H fm Hfm; [discriminate|].
+    cbn [PrattSpec.spec_stmts] in H.
+    destruct fm as [|fm]; [lia|].
+    destruct ts as [|t r].
+    - inversion H; subst. reflexivity.
+    - destruct (is_semi t) eqn:Es.
+      + rewrite stmts_semi by exact Es. apply IH; auto. cbn [length] in Hfm. lia.
+      + destruct (take_expr (t :: r)) as [[a rest]|] eqn:Et; [|discriminate].
+        destruct (take_expr_head _ _ _ Et) as (Hnp & Hnb).
+        pose proof (take_expr_spec _ _ _ Et) as (Hu & Hl & Heq).
+        rewrite stmts_S. cbn [Pratt.drop_semis]. rewrite Es.
+        destruct (is_label_for (t :: r)) eqn:Elab.
+        { apply H_label in Elab. unfold PrattSpec.take_expr in Et. rewrite Elab in Et. discriminate. }
+        assert (Hlen : length (t :: r) = (length (alt_tokens tok a) + length rest)%nat)
+          by (rewrite Heq at 1; apply app_length).
+        assert (Hstop : stops 0 rest /\ (rest <> [] -> spec_stmts fs rest = Some (tl xs) /\ xs = split_alt a :: tl xs)
+                        /\ (rest = [] -> xs = [split_alt a])).
+        { destruct rest as [|t' r'].
+          - split; [exact I|]. split; [intros C; congruence|]. intros _. now inversion H.
+          - destruct (is_semi t' || is_operand t' || is_prefix t') eqn:Est; [|discriminate].
+            destruct (spec_stmts fs (t' :: r')) as [xs'|] eqn:Ers; [|discriminate].
+            inversion H; subst. split.
+            + destruct (H_start t' Est Hnp) as (l0 & Hl0 & Hle). exists l0. destruct H_max. repeat split; auto; lia.
+            + split; [intros _; cbn [tl]; auto|intros C; discriminate]. }
+        destruct Hstop as (Hstop & Hne & Hnil).
+        rewrite Heq at 2.
+        rewrite (expr_prefix_correct a rest (fuel_for tok (t :: r)) Hu Hl Hstop)
+          by (unfold fuel_for; rewrite Hlen; lia).
+        cbn [bind fst snd].
+        assert (Hkeep : match split_alt a with Leaf t0 => negb (is_semi t0) | _ => true end = true).
+        { destruct (split_alt a) eqn:Esa; auto.
+          apply split_alt_leaf in Esa; auto.
+          destruct (is_semi t0) eqn:Es0; auto. destruct (H_semi _ Es0). congruence. }
+        rewrite Hkeep.
+        destruct rest as [|t' r'].
+        * rewrite (Hnil eq_refl). destruct fm as [|fm]; [cbn [length] in Hfm; lia|]. reflexivity.
+        * destruct (Hne ltac:(discriminate)) as (Hs' & Hxs). rewrite Hxs.
+          assert (Hrec : stmts fm (t' :: r') = ROk (tl xs)).
+          { apply (IH _ _ Hs'). rewrite Hlen in Hfm. cbn [length] in *.
+            assert (length (alt_tokens tok a) >= 1)%nat.
+            { unfold alt_tokens, PrattSpec.unit_tokens. rewrite !app_length. cbn [length]. lia. }
+            lia. }
+          destruct (is_semi t') eqn:Es'.
+          -- destruct fm as [|fm]; [discriminate|]. rewrite stmts_semi in Hrec by exact Es'.
+             rewrite Hrec. reflexivity.
+          -- rewrite Hrec. reflexivity.
   Qed.
 End Correct.
